@@ -1,4 +1,5 @@
 import MosnVerif.Lemmas.WeightedCluster
+import MosnVerif.Lemmas.EDF
 /-!
 # C06 — configured weights are honoured exactly (property theorems only)
 -/
@@ -57,5 +58,85 @@ example : (([("a", 0), ("b", 5), ("c", 1)] : List Entry).map (·.1)).Nodup ∧
     (("a", 0) : Entry) ∈ [("a", 0), ("b", 5), ("c", 1)] ∧ 3 < total [("a", 0), ("b", 5), ("c", 1)] := by decide
 example : select [("a", 0), ("b", 5), ("c", 1)] 0 = some "b" := by decide
 example : select [("a", 0), ("b", 5), ("c", 1)] 5 = some "c" := by decide
+
+/-! ## weighted round robin: the EDF scheduler (`edf.go`) over exact rationals
+
+`Sched` is the scheduler state, `nextAndPush wf hint` one `NextAndPush` (the hint resolves exact ties of deadlines the
+way the float64 implementation happened to — every theorem holds for all hints), `run` consecutive picks,
+`refresh wf n pre` the scheduler `EdfLoadBalancer.refresh` builds for `n` hosts (all `Add`s, then `|pre|` warm-up picks). -/
+section EDF
+open MosnVerif.Model MosnVerif.Model.EDF
+
+/-- **edf_invariant_step**: the invariant `dₑ − 1/wₑ ≤ now ≤ dₑ` (all queued `e`) is preserved by every pick, whatever
+positive weight the weight function returns at that moment (least-request / peak-EWMA weights change between picks). -/
+theorem edf_invariant_step (s s' : Sched) (wf : Nat → Rat) (hint : Option Nat) (i : Nat) (h : Inv s)
+    (hwf : ∀ k, 0 < wf k) (hn : s.nextAndPush wf hint = some (i, s')) : Inv s' :=
+  inv_next h hwf hn
+
+/-- **edf_invariant_reachable**: in every state reachable from the constructed balancer (any warm-up, any number of
+picks, any tie resolution) `dᵢ − 1/wᵢ ≤ dⱼ` holds for all queued entries `i`, `j`. -/
+theorem edf_invariant_reachable (wf : Nat → Rat) (hwf : ∀ k, 0 < wf k) (n : Nat) (pre picks : List (Option Nat))
+    (e f : EDF.Entry) (he : e ∈ ((refresh wf n pre).run wf picks).2.entries)
+    (hf : f ∈ ((refresh wf n pre).run wf picks).2.entries) : e.deadline - 1 / e.weight ≤ f.deadline := by
+  obtain ⟨h1, h2, _⟩ := refresh_facts wf hwf n pre
+  exact (run_facts wf hwf picks _ h1 h2).1.pairwise he hf
+
+/-- the served entry always holds a minimal deadline; without hint it is the minimum of the regenerated heap order
+`edfEntryLess` (earliest deadline, ties by queued order). -/
+theorem edf_pick_minimal (s : Sched) (hint : Option Nat) (e : EDF.Entry) (h : s.pick hint = some e) :
+    e ∈ s.entries ∧ ∀ f ∈ s.entries, e.deadline ≤ f.deadline := pick_mem_min h
+
+/-- effective host weights are in the supported range 1..128 whatever is configured. -/
+theorem wrr_weight_range (ws : List Nat) (i : Nat) : (1 : Rat) ≤ wrrWeight ws i ∧ wrrWeight ws i ≤ 128 := by
+  have := fixHostWeight_range ((ws.getD i 0 : Nat) : Int)
+  unfold wrrWeight wrrW
+  exact ⟨by exact_mod_cast Rat.intCast_le_intCast.mpr this.1, by exact_mod_cast Rat.intCast_le_intCast.mpr this.2⟩
+
+/-- **edf_window_bound**: for every weight vector `ws` (effective weights 1..128), every warm-up `pre`, every window
+start (`before` = any picks served earlier) and every window length (`window`), every tie resolution, and all hosts
+`i`, `j`: `nᵢ/wᵢ − nⱼ/wⱼ ≤ 1/wᵢ + 1/wⱼ` where `n` counts the picks inside the window.  With `i`, `j` swapped this is
+`|nᵢ/wᵢ − nⱼ/wⱼ| ≤ 1/wᵢ + 1/wⱼ`. -/
+theorem edf_window_bound (ws : List Nat) (pre before window : List (Option Nat)) (i j : Nat)
+    (hi : i < ws.length) (hj : j < ws.length) :
+    let wf := wrrWeight ws
+    let s1 := ((refresh wf ws.length pre).run wf before).2
+    let served := (s1.run wf window).1
+    ((served.count i : Nat) : Rat) / wf i - ((served.count j : Nat) : Rat) / wf j ≤ 1 / wf i + 1 / wf j := by
+  intro wf s1 served
+  have hwf : ∀ k, 0 < wf k := fun k => by
+    have := (wrr_weight_range ws k).1
+    grind
+  obtain ⟨h1, h2, h3⟩ := refresh_facts wf hwf ws.length pre
+  obtain ⟨r1, r2, r3, _, _⟩ := run_facts wf hwf before _ h1 h2
+  have hitems : s1.entries.map (·.item) = List.range ws.length := r3.trans h3
+  obtain ⟨ei, hei, rfl⟩ := mem_of_item_mem (l := s1.entries) (i := i) (by rw [hitems]; simpa using hi)
+  obtain ⟨ej, hej, rfl⟩ := mem_of_item_mem (l := s1.entries) (i := j) (by rw [hitems]; simpa using hj)
+  exact window_bound wf hwf window s1 r1 r2 hei hej
+
+/-- the executable predicate evaluated on the implementation's pick sequence (`windowsOk`: every window, every pair)
+is implied by the model: it holds of every served sequence, from every reachable state. -/
+theorem edf_spec_holds_on_model (ws : List Nat) (pre before window : List (Option Nat)) :
+    let wf := wrrWeight ws
+    let s1 := ((refresh wf ws.length pre).run wf before).2
+    windowsOk (wrrW ws) ws.length (s1.run wf window).1 = true := by
+  intro wf s1
+  have hw := wrrW_pos ws
+  have hwf : ∀ k, 0 < wf k := fun k => Rat.intCast_pos.mpr (hw k)
+  obtain ⟨h1, h2, h3⟩ := refresh_facts wf hwf ws.length pre
+  obtain ⟨r1, r2, r3, _, _⟩ := run_facts wf hwf before _ h1 h2
+  exact windowsOk_of_run (wrrW ws) hw ws.length window s1 r1 r2 (r3.trans h3)
+
+-- non-vacuity: weights 1, 3, 128 (effective 1, 3, 128), warm-up of one pick, a window of four picks after two picks
+example : ((refresh (wrrWeight [1, 3, 128]) 3 [none]).run (wrrWeight [1, 3, 128]) [none, none]).2.entries.length = 3 := by
+  decide +kernel
+example : (((refresh (wrrWeight [1, 3, 200]) 3 []).run (wrrWeight [1, 3, 200]) (List.replicate 6 none)).1) = [2, 2, 2, 2, 2, 2] := by
+  decide +kernel
+example : (((refresh (wrrWeight [1, 2]) 2 []).run (wrrWeight [1, 2]) (List.replicate 6 none)).1) = [1, 0, 1, 1, 0, 1] := by
+  decide +kernel
+/-- a hint is followed exactly when it names an entry with a minimal exact deadline (here both deadlines are 1). -/
+example : (((refresh (wrrWeight [1, 2]) 2 [none]).run (wrrWeight [1, 2]) [some 1, some 1]).1) = [1, 0] := by
+  decide +kernel
+
+end EDF
 
 end MosnVerif.Props.C06
